@@ -826,7 +826,7 @@ fn min_model(case: &MinCase) -> Vec<(String, Vec<Hit>)> {
         .map(|(i, r)| {
             let w = if case.w == 0 { r.len().max(case.m) } else { case.w };
             let runs = model::runs(r, w, case.m);
-            (format!("r{}", i), runs.iter().map(|&(v, s, e)| (String::from_utf8(model::text_of(v as u128, case.m)).unwrap(), s, e)).collect())
+            (crate::vecs::rec_id(&case.records, i), runs.iter().map(|&(v, s, e)| (String::from_utf8(model::text_of(v as u128, case.m)).unwrap(), s, e)).collect())
         })
         .collect()
 }
@@ -1059,6 +1059,7 @@ pub fn c10_big_records(tag: &str) -> Vec<Vec<u8>> {
         "all-S5-le-5" => crate::enumr::strings(crate::enumr::S5, 0, 5),
         "ten-thousand" => (0..10_050usize).map(|i| long_record(3 + i % 5, i as u64)).collect(),
         "seventy-thousand" => (0..70_000usize).map(|i| long_record(3 + i % 5, i as u64)).collect(),
+        "repeating" => crate::vecs::repeating_records(),
         "long-records" => (0..12u64).map(|i| long_record(20_000, 100 + i)).collect(),
         _ => panic!("unknown record set"),
     }
@@ -1083,6 +1084,14 @@ pub fn c10_configs(ctx: &mut Ctx) {
     for (mm, w, threads) in [(2usize, 0usize, 4usize), (2, 3, 16)] {
         if sh.mine() {
             c10_free(ctx, &MinCase { threads, w, m: mm, records: many.clone() }, "ten-thousand");
+        }
+    }
+    // records that repeat (identical neighbours, reverse complement of the previous one, ...), under one id, two ids or unique ids
+    for (mm, w) in [(2usize, 0usize), (3, 5), (4, 0), (5, 9)] {
+        for threads in [1usize, 2, 4, 16] {
+            if sh.mine() {
+                c10_free(ctx, &MinCase { threads, w, m: mm, records: c10_big_records("repeating") }, "repeating");
+            }
         }
     }
     // more records than a 16-bit record number can count
@@ -1167,6 +1176,7 @@ pub fn c05_record_set(tag: &str) -> Vec<Vec<u8>> {
         "five-hundred" => gen(500),
         "five-thousand" => gen(5000),
         "seventy-thousand" => gen(70_000),
+        "repeating" => crate::vecs::repeating_records(),
         "long-first" => {
             let mut v = vec![crate::enumr::fill(b"ACGGTCA", 300_000)];
             v.extend(gen(6));
@@ -1179,7 +1189,7 @@ pub fn c05_record_set(tag: &str) -> Vec<Vec<u8>> {
 fn c05_write_input(dir: &str, records: &[Vec<u8>], container: &str) -> String {
     use crate::files::{serialise, Rec, Ser};
     // every seventh record has an empty header line (no id): the record count must not depend on ids
-    let recs: Vec<Rec> = records.iter().enumerate().map(|(i, r)| Rec { header: if i % 7 == 3 { String::new() } else { format!("r{} some description", i) }, bases: r.clone() }).collect();
+    let recs: Vec<Rec> = records.iter().enumerate().map(|(i, r)| Rec { header: if i % 7 == 3 { String::new() } else { format!("{} some description", crate::vecs::rec_id(records, i)) }, bases: r.clone() }).collect();
     let (ser, suffix, gz) = match container {
         "fasta" => (Ser::FastaLine, ".fa", false),
         "fasta-w1" => (Ser::FastaWrap(1), ".fasta", false),
@@ -1247,7 +1257,7 @@ fn c05_config(ctx: &mut Ctx, set: &str, records: &[Vec<u8>], k: usize, container
 }
 
 pub fn c05_lattice(ctx: &mut Ctx) {
-    let sets = ["one", "two", "five", "thirty-seven", "five-hundred", "long-first", "five-thousand"];
+    let sets = ["one", "two", "five", "thirty-seven", "five-hundred", "long-first", "five-thousand", "repeating"];
     let limits = [1usize, 2, 7, 100, 4usize << 30];
     let containers = ["fasta", "fasta-w1", "fasta-w3", "fasta-w60", "fastq", "fasta-gz", "fastq-gz"];
     let delims = [" ", ",", "\t"];
